@@ -464,3 +464,17 @@ Theorem reselect_spec matches ord t ops s :
   names_plainb matches (s_idx t') = true -> sel_okb t' s = true ->
   indices matches ord (hfinal matches ord t ops) (QOne s) = sel_spec matches t' s.
 Proof. intros Ho t' Hp Hk. rewrite hfinal_edited. now apply indices_refines. Qed.
+
+(* ---- tables with their own regex_flags, several alive at once ------------------------------------- *)
+
+Theorem refines_flags (matches2 : bool -> N -> N -> bool) ord : perm_oracle ord -> forall fold_case t s,
+  names_plainb (matches2 fold_case) (s_idx t) = true -> sel_okb t s = true ->
+  indices (matches2 fold_case) ord t (QOne s) = sel_spec (matches2 fold_case) t s.
+Proof. intros Ho fc. exact (indices_refines (matches2 fc) ord Ho). Qed.
+
+Theorem tables_independent (matches2 : bool -> N -> N -> bool) ord tabs steps i k q ft :
+  nth_error steps i = Some (k, q) -> nth_error tabs k = Some ft ->
+  nth_error (mrun matches2 ord tabs steps) i = Some (fviews matches2 ord ft q).
+Proof.
+  intros Hs Ht. unfold mrun. rewrite (map_nth_error _ _ _ Hs). unfold mstep. cbn [fst snd]. now rewrite Ht.
+Qed.
